@@ -279,3 +279,12 @@ def run(ctx, eng):
                node=f5.node)
     lookup_rule(ctx, eng)
     check_receive_frame(eng, ctx)
+    cm.include(ctx, eng, 'C20', {'FSM.reset-record'},
+               'HEADERS for a stream that was reset are a stream error only '
+               'because every local reset is recorded as one')
+    cm.include(ctx, eng, 'C22',
+               lambda o: o.rule in ('ORD.gates', 'ORD.gate') and
+               o.where.endswith('_receive_push_promise_frame'),
+               'a promised id is checked like any new stream id: the promise '
+               'handler creates it through _begin_new_stream, never re-uses '
+               'an existing stream')
